@@ -61,22 +61,32 @@ func (s ws) name() string {
 	return s.Pkg[strings.LastIndex(s.Pkg, "/")+1:] + "." + s.Type
 }
 
-func U(path string, byt, bit, width int) wf   { return wf{Path: path, Kind: kUint, Byte: byt, Bit: bit, Width: width} }
+func U(path string, byt, bit, width int) wf {
+	return wf{Path: path, Kind: kUint, Byte: byt, Bit: bit, Width: width}
+}
 func UM(path string, byt, bit, width int, max int64) wf {
 	return wf{Path: path, Kind: kUint, Byte: byt, Bit: bit, Width: width, Max: max}
 }
-func B(path string, byt, bit int) wf          { return wf{Path: path, Kind: kBool, Byte: byt, Bit: bit, Width: 1} }
-func E01(path string, byt, bit int) wf        { return wf{Path: path, Kind: kEnum01, Byte: byt, Bit: bit, Width: 1} }
-func EN(path string, byt, bit, width int) wf  { return wf{Path: path, Kind: kEnum01, Byte: byt, Bit: bit, Width: width} }
-func BA(path string, byt, bit, n int) wf      { return wf{Path: path, Kind: kBoolArr, Byte: byt, Bit: bit, Width: n} }
-func BY(path string, byt, n int) wf           { return wf{Path: path, Kind: kBytes, Byte: byt, Width: n} }
-func BYR(path string, byt, n int) wf          { return wf{Path: path, Kind: kBytesRev, Byte: byt, Width: n} }
-func I6(path string, byt int) wf              { return wf{Path: path, Kind: kInt6, Byte: byt, Width: 6} }
-func F100(path string, byt int) wf            { return wf{Path: path, Kind: kFreq100, Byte: byt, Width: 24} }
-func FNC(path string, byt int) wf             { return wf{Path: path, Kind: kFreqNC, Byte: byt, Width: 24} }
-func GPS(path string, byt int) wf             { return wf{Path: path, Kind: kGPSTime, Byte: byt, Width: 40} }
-func I32(path string, byt int) wf             { return wf{Path: path, Kind: kInt32, Byte: byt, Width: 32} }
-func unarmed(f wf, core ...int64) wf           { f.RangeUnarmed = true; f.Core = core; return f }
+func B(path string, byt, bit int) wf {
+	return wf{Path: path, Kind: kBool, Byte: byt, Bit: bit, Width: 1}
+}
+func E01(path string, byt, bit int) wf {
+	return wf{Path: path, Kind: kEnum01, Byte: byt, Bit: bit, Width: 1}
+}
+func EN(path string, byt, bit, width int) wf {
+	return wf{Path: path, Kind: kEnum01, Byte: byt, Bit: bit, Width: width}
+}
+func BA(path string, byt, bit, n int) wf {
+	return wf{Path: path, Kind: kBoolArr, Byte: byt, Bit: bit, Width: n}
+}
+func BY(path string, byt, n int) wf  { return wf{Path: path, Kind: kBytes, Byte: byt, Width: n} }
+func BYR(path string, byt, n int) wf { return wf{Path: path, Kind: kBytesRev, Byte: byt, Width: n} }
+func I6(path string, byt int) wf     { return wf{Path: path, Kind: kInt6, Byte: byt, Width: 6} }
+func F100(path string, byt int) wf   { return wf{Path: path, Kind: kFreq100, Byte: byt, Width: 24} }
+func FNC(path string, byt int) wf    { return wf{Path: path, Kind: kFreqNC, Byte: byt, Width: 24} }
+func GPS(path string, byt int) wf    { return wf{Path: path, Kind: kGPSTime, Byte: byt, Width: 40} }
+func I32(path string, byt int) wf    { return wf{Path: path, Kind: kInt32, Byte: byt, Width: 32} }
+func unarmed(f wf, core ...int64) wf { f.RangeUnarmed = true; f.Core = core; return f }
 func rfu(byt int, bits ...int) [][2]int {
 	var out [][2]int
 	for _, b := range bits {
@@ -213,9 +223,10 @@ func unmarshalArgs(in *absint.Interp, T types.Type, data absint.Value, uplink bo
 }
 
 // specDomain builds a condition over the free field symbols.
-//   representable=false: "every field lies in its armed specification range" (unarmed fields restricted to their
-//                        revision-independent core values);
-//   representable=true:  "every field fits what the wire can carry" (width / unit / two's-complement range).
+//
+//	representable=false: "every field lies in its armed specification range" (unarmed fields restricted to their
+//	                     revision-independent core values);
+//	representable=true:  "every field fits what the wire can carry" (width / unit / two's-complement range).
 func specDomain(in *absint.Interp, val absint.Value, fields []wf, representable bool) absint.Node {
 	d := in.D
 	s := absint.True
